@@ -239,12 +239,14 @@ def root_cause(case, clauses=None):
     xs = case["xs"]
     live = [x for x in xs if x["f"] != "-"]
     can = lambda names: clauses is None or any(c in names for c in clauses)
-    if can(STRUCT_CLAUSES) and len(live) > 1 and \
+    if can(STRUCT_CLAUSES) and (len(live) > 1 or case["fam"] == "clip") and \
             any(x["f"] == "d" and any(s == 1 and 0 in c for s, c in zip(x["sh"], x["ch"])) for x in live):
         return "elemwise:zero-chunk-on-unit-axis"
     if case["fam"] == "outwhere" and xs[2]["f"] != "-":
         # where=True (the Python constant) is the same code path as no where= at all
         masked = xs[3]["f"] != "-" and not (xs[3]["f"] == "s" and xs[3]["v"] == [1])
+        if masked and xs[2]["sh"] == [] and clauses is not None and list(clauses) == ["UnexpectedRaise"]:
+            return "outwhere:0d-out+where"
         ins = [x["sh"] for x in (xs[0], xs[1], xs[3]) if x["f"] != "-"]
         if not masked and list(xs[2]["sh"]) != _bshape(ins):
             return "outwhere:out-shape-larger-than-inputs" if can(("UnexpectedRaise",)) else None
@@ -314,7 +316,9 @@ def spellings_for(case, rng, thorough):
         all_ = ["da", "np"]
     if fam == "where" and case["xs"][0]["f"] == "s" and not any(x["f"] == "d" for x in case["xs"][1:]):
         all_ = ["da"]
-    return all_ if thorough else [rng.choice(all_)]
+    if not thorough:
+        return [rng.choice(all_)]
+    return ["da"] + ([rng.choice(all_[1:])] if len(all_) > 1 else [])
 
 
 ALLSH = "({<<>>} \\cup {<<a>> : a \\in 0..3} \\cup {<<a, b>> : a \\in 0..3, b \\in 0..3})"
@@ -342,7 +346,7 @@ def families(ctx):
     small = "{<<>>, <<3>>, <<2, 1>>, <<2, 3>>}"
     cfgs = [
         # alignment: every broadcastable pair of shapes x ALL chunkings of both operands
-        _cfg("bcast", "binary", ALLSH, ["add"] if q else ["add", "sub", "lt"], [["i", "i"]], f("dd", "dn", "nd"),
+        _cfg("bcast", "binary", ALLSH, ["add"], [["i", "i"]], f("dd", "dn", "nd"),
              zero=not q, bad="{<<<<2>>, <<3>>>>, <<<<2, 3>>, <<2>>>>, <<<<0>>, <<2>>>>}"),
         # dtype kinds x operations x operand forms (dtype inference does not look at chunks)
         _cfg("kinds", "binary", "{<<>>, <<2>>}" if q else "{<<>>, <<3>>, <<2, 1>>}", BINOPS, allk2, f("dd", "dn", "nd", "ds", "sd"),
@@ -351,14 +355,14 @@ def families(ctx):
         _cfg("astype", "astype", "{<<>>, <<0>>, <<3>>, <<2, 3>>}", K5, [[k] for k in K5], f("d"), zero=not q),
         _cfg("where", "where", small if q else "{<<>>, <<1>>, <<3>>, <<2, 1>>, <<2, 3>>, <<0>>}", ["where"],
              [["b", "i", "i"], ["b", "u", "f"], ["i", "b", "i"]] + ([] if q else [["b", "i", "c"], ["b", "f", "i"]]),
-             f("ddd", "dnd", "dds", "sdd", "dss") + ([] if q else f("ndn", "dsd", "sdn", "nsd")),
+             f("ddd", "dnd", "dds", "sdd", "dss") + ([] if q else f("ndn", "dsd")),
              allch=not q, bad="{<<<<2>>, <<3>>, <<3>>>>}"),
         _cfg("clip", "clip", small, ["clip"],
              [["i", "i", "i"], ["u", "i", "i"], ["i", "f", "i"]] + ([] if q else [["f", "i", "i"], ["u", "u", "i"], ["i", "i", "f"]]),
-             f("dss", "d-s", "ds-", "dds", "dnd") + ([] if q else f("ddd", "nds", "d--")), allch=not q),
+             f("dss", "d-s", "ds-", "dds", "dnd") + ([] if q else f("nds", "d--")), allch=not q),
         _cfg("outwhere", "outwhere", "{<<>>, <<3>>, <<2, 1>>}" if q else small, ["add"] if q else ["add", "lt"],
-             [["i", "i", "i", "b"], ["i", "i", "f", "b"], ["f", "i", "i", "b"]] + ([] if q else [["u", "i", "i", "i"], ["i", "u", "u", "b"]]),
-             f("ddd-", "dd-d", "dddd", "dndn", "ddds") + ([] if q else f("dsdd", "nd-n", "dd-s")),
+             [["i", "i", "i", "b"], ["i", "i", "f", "b"], ["f", "i", "i", "b"]] + ([] if q else [["u", "i", "i", "b"], ["i", "u", "u", "b"]]),
+             f("ddd-", "dd-d", "dddd", "dndn", "ddds") + ([] if q else f("dsdd", "dd-s")),
              allch=False),
     ]
     caps = {"bcast": 6000, "kinds": 7000, "unary": 2000, "astype": 800, "where": 5000, "clip": 4000, "outwhere": 5000}
@@ -411,9 +415,10 @@ def _rand_chunks(rng, n, zero_p=0.12):
 class Expr:
     """A random lazy expression built step by step; every step is one record."""
 
-    def __init__(self, rng, eid):
+    def __init__(self, rng, eid, origin=None):
         import dask.array as da
         self.rng, self.eid, self.da = rng, eid, da
+        self.origin = origin        # (eid, seed, nsteps): lets a replay re-execute the whole lazy expression
         nd = rng.choice([1, 2, 2, 3])
         self.base = [rng.choice([1, 2, 3, 4, 5, 6]) for _ in range(nd)]
         if nd == 3:
@@ -522,7 +527,8 @@ class Expr:
         objs = [x[0] for x in xs]
         case = {"fam": fam, "op": op, "xs": [x[1] for x in xs]}
         spelling = self.rng.choice(["da", "da", "np", "op"])
-        rec = {"id": "e%d.%d" % (self.eid, sid), "fam": fam, "op": op, "xs": case["xs"], "spelling": spelling}
+        rec = {"id": "e%d.%d" % (self.eid, sid), "fam": fam, "op": op, "xs": case["xs"], "spelling": spelling,
+               "expr": list(self.origin or [])}
         y = None
         try:
             with warnings.catch_warnings():
@@ -591,7 +597,7 @@ def int_cells(a, keep_garbage=False):
 def _expr(item):
     eid, seed, nsteps = item
     import random
-    e = Expr(random.Random(seed), eid)
+    e = Expr(random.Random(seed), eid, origin=(eid, seed, nsteps))
     for s in range(nsteps):
         e.run_step(s)
     return e.steps
@@ -658,7 +664,7 @@ def run(ctx):
     # the Python verdict function is cross-checked against TLC on a sample of the enumerated cases
     crosscheck_verdicts(ctx, crosscheck)
     # code -> spec
-    pairs = record_expressions(ctx, ctx.pick(400, 6000))
+    pairs = record_expressions(ctx, ctx.pick(400, 4000))
     validate(ctx, pairs)
     if pairs:
         ctx.sample({"recorded_step": {k: pairs[0][0][k] for k in ("fam", "op", "xs", "spelling")}})
@@ -701,6 +707,17 @@ def crosscheck_verdicts(ctx, cases):
 
 def replay(ctx, obj):
     c = obj["case"]
+    if "record" in c and c["record"].get("expr"):
+        # a step of a recorded lazy expression: re-execute the whole expression from its seed
+        r = c["record"]
+        steps = [rec for rec, _g in _expr(tuple(r["expr"])) if rec["id"] == r["id"]]
+        if not steps:
+            print("the expression no longer reaches step", r["id"])
+            return False
+        spec, cfg = ctx.model(ctx.spec("array", "ElemwiseTrace.tla"), {})
+        rej = ctx.tlc_validate(spec, steps, cfg)
+        print("step:", {k: steps[0][k] for k in ("fam", "op", "xs", "spelling")}, "\nobserved:", steps[0]["obs"], "\nrejected:", rej)
+        return bool(rej)
     if "record" in c:
         r = c["record"]
         spec, cfg = ctx.model(ctx.spec("array", "ElemwiseTrace.tla"), {})
